@@ -14,18 +14,18 @@ import (
 // TZ=<absolute path>; the Go runtime honours it, so every UTC offset can be tested.
 func tzifFixed(offsetSec int, abbr string) []byte {
 	b := []byte("TZif")
-	b = append(b, 0)                 // version 1
+	b = append(b, 0)                   // version 1
 	b = append(b, make([]byte, 15)...) // reserved
 	cnt := func(n uint32) {
 		var x [4]byte
 		binary.BigEndian.PutUint32(x[:], n)
 		b = append(b, x[:]...)
 	}
-	cnt(0)                      // ttisgmtcnt
-	cnt(0)                      // ttisstdcnt
-	cnt(0)                      // leapcnt
-	cnt(0)                      // timecnt
-	cnt(1)                      // typecnt
+	cnt(0)                     // ttisgmtcnt
+	cnt(0)                     // ttisstdcnt
+	cnt(0)                     // leapcnt
+	cnt(0)                     // timecnt
+	cnt(1)                     // typecnt
 	cnt(uint32(len(abbr) + 1)) // charcnt
 	var x [4]byte
 	binary.BigEndian.PutUint32(x[:], uint32(int32(offsetSec)))
